@@ -2,7 +2,7 @@
    Determinism of encoding is definitional: every enc_X is a Gallina function. *)
 From HV Require Import Base.Prelude Base.Outcome Base.Bytes Model.CodecMsg Proofs.CodecMsg
   Model.CodecType Proofs.CodecType Model.CodecAttr Proofs.CodecAttr
-  Model.CodecSuper Proofs.CodecSuper.
+  Model.CodecSuper Proofs.CodecSuper Model.CodecOhdr Proofs.CodecOhdr.
 
 Theorem C11_dataspace_roundtrip : forall x, wf_dataspace x = true ->
   dec_dataspace (enc_dataspace x) = Ok (proj_dataspace x).
@@ -40,15 +40,23 @@ Theorem C11_datatype_len : forall x, wf_datatype x = true -> blen (enc_datatype 
 Proof. exact datatype_blen. Qed.
 Print Assumptions C11_datatype_len.
 
-(* D10: variable-length datatype: the decoder does not return the encoded class / flags / base type *)
+(* D10: variable-length datatype, header as the pinned tree writes it (class and version nibbles swapped,
+   type flags at bytes 8-11): the decoder does not return the encoded class / flags / base type *)
 Theorem C11_vlen_refuted :
   exists x, dt_class x = DT_VLEN /\ encok_datatype x = true /\
-            match dec_datatype (enc_datatype x) with
+            match dec_datatype (enc_datatype_gen false x) with
             | Ok y => transported x y = false
             | _ => True
             end.
 Proof. exact vlen_refuted. Qed.
 Print Assumptions C11_vlen_refuted.
+
+(* ... and under the repaired layout (notes/fixes of C12: standard header, base type at byte 8) it does;
+   Model.CodecType.vlen_header_repaired selects which of the two the tie compares with the Go code *)
+Theorem C11_vlen_repaired_roundtrip : forall x, wf_vlen x = true ->
+  dec_datatype (enc_datatype_gen true x) = Ok (proj_vlen x).
+Proof. exact vlen_repaired_roundtrip. Qed.
+Print Assumptions C11_vlen_repaired_roundtrip.
 
 (* attribute message, version 3 (little-endian size fields, as the writer produces them) *)
 Theorem C11_attribute_roundtrip : forall x, wf_attribute x = true ->
@@ -71,3 +79,30 @@ Print Assumptions C11_superblock_roundtrip.
 Theorem C11_superblock_len : forall x, blen (enc_superblock x) = size_superblock x.
 Proof. exact superblock_blen. Qed.
 Print Assumptions C11_superblock_len.
+
+(* object header version 2 inside a file image: prefix, message list, sizes.  The reader stops at
+   chunk end - 4 (it expects a checksum the writer does not write) and fetches 6 bytes per message header,
+   so at least one byte must follow the header in the file (C11_ohdr_v2_eof_quirk); messages with
+   empty data are skipped by the reader and are excluded by wf_ohdr_v2. *)
+Theorem C11_ohdr_v2_roundtrip : forall x (pre suf : list N) sbBE,
+  wf_ohdr_v2 x = true -> 1 <= blen suf ->
+  blen pre + size_ohdr_v2 x + 8 < 9223372036854775808 ->
+  dec_ohdr sbBE (pre ++ enc_ohdr_v2 x ++ suf) (blen pre) = Ok (proj_ohdr_v2 sbBE x (blen pre)).
+Proof. exact ohdr_v2_roundtrip. Qed.
+Print Assumptions C11_ohdr_v2_roundtrip.
+
+Theorem C11_ohdr_v2_len : forall x, blen (enc_ohdr_v2 x) = size_ohdr_v2 x.
+Proof. exact ohdr_v2_blen. Qed.
+Print Assumptions C11_ohdr_v2_len.
+
+Theorem C11_ohdr_v2_eof_quirk :
+  exists x, wf_ohdr_v2 x = true /\ dec_ohdr false (enc_ohdr_v2 x) 0 = Err.
+Proof. exact ohdr_v2_eof_quirk. Qed.
+Print Assumptions C11_ohdr_v2_eof_quirk.
+
+(* object header version 1 as the pinned tree writes it: the size field is 16 + 8*n, messages are lost *)
+Theorem C11_ohdr_v1_refuted :
+  exists x, oh_version x = 1 /\
+    dec_ohdr false (enc_ohdr_v1_gen false x ++ [0]) 0 <> Ok (proj_ohdr_v1 x 0).
+Proof. exact ohdr_v1_refuted. Qed.
+Print Assumptions C11_ohdr_v1_refuted.
